@@ -369,3 +369,26 @@ func (u *Unit) query(o *Obligation, forCVC5 bool) string {
 	}
 	return sb.String()
 }
+
+// typeInvariant records, once per ground term, the type invariant of a value
+// read from the heap by a contract expression (slice headers are well formed,
+// interface tags are consistent). These hold for every value a Go program can
+// store, in any state.
+func (u *Unit) typeInvariant(t Term) {
+	if strings.Contains(t.S, "q!") || isFormal(t.S) {
+		return
+	}
+	switch t.Sort {
+	case SSlice:
+		max := bvConst(bigPow2(48), 64)
+		u.axiomOnce("ti:"+t.S, mkAnd(
+			mk(SBool, "bvsle", bv64(0), sLen(t)), mk(SBool, "bvsle", sLen(t), sCap(t)), mk(SBool, "bvsle", sCap(t), max),
+			mk(SBool, "bvsle", bv64(0), sOff(t)), mk(SBool, "bvsle", sOff(t), max), mk(SBool, ">=", sBase(t), intConst(0)),
+			mkImp(mkEq(sBase(t), intConst(0)), mkAnd(mkEq(sCap(t), bv64(0)), mkEq(sOff(t), bv64(0))))).S)
+	case SIface:
+		tag, val := mk(SInt, "if-tag", t), mk(SInt, "if-val", t)
+		u.axiomOnce("ti:"+t.S, mkAnd(mk(SBool, ">=", tag, intConst(0)), mkImp(mkEq(tag, intConst(0)), mkEq(val, intConst(0)))).S)
+	case SInt:
+		u.axiomOnce("ti:"+t.S, mk(SBool, ">=", t, intConst(0)).S)
+	}
+}
